@@ -138,6 +138,9 @@ def gen_world(rng, shape=None, n=None, labels=None, directed_p=0.25, selfnbr_p=0
                 f = rng.choice(others)
                 linked.append([list(e), [list(f)]])
                 linked.append([list(f), [list(e)]])
+    if shape == "grid" and unit == 1.0 and offset == (0.0, 0.0) and rng.random() < 0.25:
+        # plain Python ints as coordinates (what a hand-written test map looks like)
+        nodes = [[l, [int(p[0]), int(p[1])], nb] for l, p, nb in nodes]
     world = {"latlon": latlon, "nodes": nodes, "linked": linked, "shape": shape, "unit": unit}
     return world
 
